@@ -203,7 +203,7 @@ fn c15_fixed_body<const N: usize>(order: usize) {
 /// coefficients of ANY precision 1..=15 and ANY shift 0..=15, the component holding the warm-up
 /// and e[t] = s[t] - ((sum_j c_j * s[t-1-j]) >> shift) (64-bit, arithmetic shift: RFC 9639
 /// section 9.2.6) decodes to exactly s -- provided the residual is below 2^30 in magnitude.
-//@ unit props=C15,C01 tier=quick kind=bounded timeout=900 funcs="Lpc::copy_signal; decode::decode_lpc; Residual::copy_signal; QuantizedParameters::coefs" stubs="arrayutils::find_max -> contract_find_max; arrayutils::wrapping_sum -> contract_wrapping_sum" bound="orders 1..=2, block size order+2, one partition; samples symbolic in 8..=25 bits; |residual| < 2^30"
+//@ unit props=C15,C01 tier=thorough kind=bounded timeout=900 funcs="Lpc::copy_signal; decode::decode_lpc; Residual::copy_signal; QuantizedParameters::coefs" stubs="arrayutils::find_max -> contract_find_max; arrayutils::wrapping_sum -> contract_wrapping_sum" bound="orders 1..=2, block size order+2, one partition; samples symbolic in 8..=25 bits; |residual| < 2^30"
 #[kani::proof]
 #[kani::unwind(34)]
 #[kani::stub(std::fmt::format, stub_format)]
